@@ -14,7 +14,7 @@ RULE = ('seeded transfers in which the device rejects: pull FAIL immediately / m
         'for an OKAY) or a multi-WRITE transfer failed; distinct = event-log digests')
 ASSUMPTIONS = ['an unknown sync id word is outside "sync status record" (raises KeyError today; noted, not asserted)',
                'no time bound is attached to the no-timeout clause: a long push legitimately keeps sending after an early FAIL']
-EXPECT_PROBES = {'all': ['fail_before_okay', 'push_fail_sent', 'recv_fail_mid', 'c10_multi_wrte_fail', 'c10_empty_reason', 'c10_bad_record', 'c10_link_drop_after_fail']}
+EXPECT_PROBES = {'all': ['fail_before_okay', 'push_fail_sent', 'recv_fail_mid', 'c10_multi_wrte_fail', 'c10_empty_reason', 'c10_bad_record', 'c10_link_drop_after_fail', 'recv_empty_data_before_fail']}
 OWN = ('wrong-result', 'unexpected-exception', 'timeout-instead-of-result', 'missing-exception', 'wrong-exception', 'reason-missing', 'hang', 'no-termination')
 
 REASONS = [b'100% full', b'My%20File.bin: %s %d', b'', b'Permission denied', b'couldn\'t create file: Read-only file system', b'x' * 300, b'\xff\xfe bad \xc3', 'nö spáce'.encode('utf8'), b'No space left on device']
@@ -30,7 +30,7 @@ def generate(seed, tier):
     c = g.int(0, 9)
     if c <= 2:
         p = S.add_file(g, d, 30000)
-        d['recv_fail'] = {p: {'at': g.pick(['start', 'mid', 'end']), 'n': g.int(1, 3), 'reason': reason.hex(), 'then_close': g.chance(0.4)}}
+        d['recv_fail'] = {p: {'at': g.pick(['start', 'mid', 'end']), 'n': g.int(1, 3), 'reason': reason.hex(), 'then_close': g.chance(0.4), 'empty_data_first': g.chance(0.2)}}
         ops.append({'op': 'pull', 'path': p, 'dest': g.pick(['bytesio', 'file']), 'cb': g.pick([None, None, 'count'])})
         if g.chance(0.3):
             # the progress callback uses the device itself (a stat() on another stream): that reader takes the pull's FAIL -- and the CLSE
